@@ -6,12 +6,9 @@ import (
 	"fmt"
 	"os"
 	"path/filepath"
-	"sort"
 	"strings"
-	"testing"
 
 	"pgregory.net/rapid"
-	"verifharness/vk"
 )
 
 // ---- byte-level mutation of valid encodings --------------------------------
@@ -85,7 +82,7 @@ func mutate(t *rapid.T, data, other []byte, maxLen int) []byte {
 	return out
 }
 
-// ---- known findings for the native fuzz targets ----------------------------
+// ---- open known findings (to let a new failure take precedence over a recorded one) ----
 
 func verifRoot() string {
 	if v := os.Getenv("VERIF_ROOT"); v != "" {
@@ -117,45 +114,10 @@ var openKnown = func() map[string]bool {
 	return m
 }()
 
-// fuzzReport turns the outcome of a shared check function into the verdict of
-// a native fuzz target: findings listed as open in known_findings.jsonl are
-// skipped so that the fuzzer keeps searching behind them.
-func fuzzReport(t *testing.T, sub string, f *vk.Failure) {
-	if f == nil {
-		return
-	}
-	key := f.Key
-	if !strings.HasPrefix(key, sub) {
-		key = sub + "/" + key
-	}
-	if openKnown[key] {
-		t.Skipf("known finding %s", key)
-	}
-	t.Fatalf("VIOLATION sub=%s key=%s\n%s", sub, key, f.Msg)
-}
-
-// fuzzGuard runs check under recover so that an escaping panic is reported with
-// the same key the vk runner would use.
-func fuzzGuard(sub string, check func() *vk.Failure) (f *vk.Failure) {
-	defer func() {
-		if r := recover(); r != nil {
-			f = vk.Failf("unexpected-panic", "%v", r)
-		}
-	}()
-	return check()
-}
-
-// addCorpus loads the seed inputs /verif/corpus/C16/<target>/* into f.
-func addCorpus(f *testing.F, target string, add func([]byte)) {
-	files, _ := filepath.Glob(filepath.Join(verifRoot(), "corpus", "C16", target, "*"))
-	sort.Strings(files)
-	for _, p := range files {
-		b, err := os.ReadFile(p)
-		if err == nil {
-			add(b)
-		}
-	}
-}
+// maxBytesCase bounds the inputs the byte-level checks look at (the native
+// fuzzer may grow inputs to a megabyte; the decoders under test are linear or
+// quadratic in the input).
+const maxBytesCase = 4096
 
 // ---- small helpers -----------------------------------------------------------
 
